@@ -43,6 +43,11 @@ CLAIMED = {
    text="Four enumerations per seeded scenario: sink faults (byte offset x {err, torn, err-after-full, short-noerr} x {sticky, one-shot}), truncation (strict prefixes), source faults during open+read (ReadAt call index x {err, short+err, short+EOF} x cut position incl. page boundaries) and source faults during WriteRowGroup copy. Oracle: an error is returned, or nothing was lost (bytes identical / every row delivered); never a nil Close with missing bytes, never a clean EOF with missing or altered rows, never a panic.",
    note="Exactly one fault per execution; after the first reported error the object is abandoned. (len(p), io.EOF) is only legal at the end of the source and is covered as a benign configuration, not as a fault.",
    ref="DESIGN.md §4 C14"),
+ "C16": dict(level="exploration", engine="E1 storage-sim + H2 poison",
+   technique="deterministic simulation: seeded read/seek/Reset/Close histories with unrelated writer/reader churn, on a deterministic pool that reuses released objects immediately (LIFO) and poisons released slice memory; held values re-compared with the reference model at every later point",
+   text="Seeded search over files, reader kinds and histories; every typed value ever returned by Read is re-checked against the written value after each later operation and after Close + churn, Rows returned by ReadRows are re-checked right before the next call on the same reader, clones at the end, and everything handed to Write is compared with a pristine copy after Close.",
+   note="An alias is observable only once its memory is released: buffers deliberately left to the garbage collector never change and are not violations.",
+   ref="DESIGN.md §4 C16"),
  "C17": dict(level="exploration", engine="E1 storage-sim + cross-build/process digests",
    technique="deterministic simulation: seeded prior-life histories (close / abandon / injected sink failure) on a reused writer, buffer or sorting writer vs a fresh instance in a fresh deterministic pool; sha256 compared across processes, purego build and AVX-512/AVX2-disabled runs",
    text="Seeded search over (target rows X, options) x histories of earlier lives of the same instance; the bytes written after Reset must equal those of a fresh instance, of a repeat in the warm process and of another goroutine. The digests of the first runs of each batch are recomputed in other processes by the purego build and by the accelerated build with AVX-512 / AVX2 disabled and must match.",
